@@ -14,7 +14,7 @@
     - [view_at] on a view is [find] (in the code: the default method [self.view().find(p)]).
     Generic proofs: ViewsThm.v, ViewsExtra.v, MutTrav.v. *)
 From Coq Require Import List NArith Bool Sorted.
-From PT Require Import Lookup Lookup2 ViewsThm ViewsExtra MutTrav.
+From PT Require Import Lookup Lookup2 ViewsThm ViewsExtra MutTrav Arena Arena3 ArenaProps ArenaViews.
 From PT.Properties Require Import Common.
 Import ListNotations.
 
@@ -267,6 +267,56 @@ Proof.
   unfold vm_view, vm_root, vm_tree. cbn [mvirt mpath]. rewrite (subtree_nil pfx V). reflexivity.
 Qed.
 
+(* ---------------------------------------------------------------------------------------- *)
+(** * The same statements about the ARENA-level transcription of [TrieView] / [TrieViewMut]
+      ([Arena3.a_v_*] / [a_vm_*], ArenaViews.v): [am] is any arena reachable from the empty arena by a
+      history over the whole mutator alphabet, [l] any location obtained from the root location by any
+      sequence of [find] / [find_exact] / [find_lpm] / [left] / [right] calls of either family
+      ([a_vreach]); [es] is what the view's own iteration yields.  Only arena-level observations
+      occur in the statements. *)
+Notation avreach am := (a_vreach pfx V (peq w) (contains w fl) (is_bit_set w) plen (lcp w fl) (okp w) (Arena.tbl am)).
+Notation aviter am := (a_v_iter pfx V (Arena.tbl am)).
+
+Theorem C12_arena_find (am : Arena.amap pfx V) l q es :
+  areach pfx V (peq w) (contains w fl) (is_bit_set w) plen (lcp w fl) pzero (okp w) am -> avreach am l -> okp w q -> aviter am l = Arena.Ok es ->
+  exists o, Arena3.a_v_find pfx V (peq w) (contains w fl) (is_bit_set w) plen (lcp w fl) (Arena.tbl am) l q = Arena.Ok o /\
+            Arena3.a_vm_find pfx V (peq w) (contains w fl) (is_bit_set w) plen (lcp w fl) (Arena.tbl am) l q = Arena.Ok o /\
+    match o with
+    | Some l' => avreach am l' /\ aviter am l' = Arena.Ok (filter (under (kbits w q)) es) /\
+                 exists p, Arena3.a_v_prefix pfx V (Arena.tbl am) l' = Arena.Ok p /\ kbits w p = kbits w q
+    | None => filter (under (kbits w q)) es = []
+    end.
+Proof. exact (arena_C12_find pfx V _ _ _ _ _ _ _ _ _ LAWS am l q es). Qed.
+
+Theorem C12_arena_find_exact (am : Arena.amap pfx V) l q es :
+  areach pfx V (peq w) (contains w fl) (is_bit_set w) plen (lcp w fl) pzero (okp w) am -> avreach am l -> okp w q -> aviter am l = Arena.Ok es ->
+  exists o, Arena3.a_v_find_exact pfx V (peq w) (contains w fl) (is_bit_set w) plen (Arena.tbl am) l q = Arena.Ok o /\
+            Arena3.a_vm_find_exact pfx V (peq w) (contains w fl) (is_bit_set w) plen (Arena.tbl am) l q = Arena.Ok o /\
+    (o <> None <-> exists e, In e es /\ key e = kbits w q) /\
+    match o with
+    | Some l' => avreach am l' /\
+                 Arena3.a_v_find pfx V (peq w) (contains w fl) (is_bit_set w) plen (lcp w fl) (Arena.tbl am) l q = Arena.Ok (Some l') /\
+                 aviter am l' = Arena.Ok (filter (under (kbits w q)) es) /\
+                 exists p x, Arena3.a_v_prefix pfx V (Arena.tbl am) l' = Arena.Ok p /\
+                             Arena3.a_v_value pfx V (Arena.tbl am) l' = Arena.Ok (Some x) /\
+                             In (p, x) es /\ kbits w p = kbits w q
+    | None => True
+    end.
+Proof. exact (arena_C12_find_exact pfx V _ _ _ _ _ _ _ _ _ LAWS am l q es). Qed.
+
+Theorem C12_arena_find_lpm (am : Arena.amap pfx V) l q es :
+  areach pfx V (peq w) (contains w fl) (is_bit_set w) plen (lcp w fl) pzero (okp w) am -> avreach am l -> okp w q -> aviter am l = Arena.Ok es ->
+  exists o, Arena3.a_v_find_lpm pfx V (peq w) (contains w fl) (is_bit_set w) plen (Arena.tbl am) l q = Arena.Ok o /\
+            Arena3.a_vm_find_lpm pfx V (peq w) (contains w fl) (is_bit_set w) plen (Arena.tbl am) l q = Arena.Ok o /\
+    match o with
+    | Some l' => avreach am l' /\
+                 exists e, is_lpm es q e /\ Arena3.a_v_prefix_value pfx V (Arena.tbl am) l' = Arena.Ok (Some e) /\
+                           Arena3.a_v_find_exact pfx V (peq w) (contains w fl) (is_bit_set w) plen (Arena.tbl am) l (fst e) = Arena.Ok (Some l') /\
+                           aviter am l' = Arena.Ok (filter (under (kbits w (fst e))) es)
+    | None => no_cover es q
+    end.
+Proof. exact (arena_C12_find_lpm pfx V _ _ _ _ _ _ _ _ _ LAWS am l q es). Qed.
+
 End C12.
 
 (** non-vacuity, [w = 8], the map {1/1 -> 1, 10/2 -> 2, 11/2 -> 3, 101/3 -> 4, 11010/5 -> 5} and the
@@ -347,3 +397,6 @@ Print Assumptions C12_mut_find_lpm_iff.
 Print Assumptions C12_mut_results_wf.
 Print Assumptions C12_view_at_is_find.
 Print Assumptions C12_view_mut_at_is_find.
+Print Assumptions C12_arena_find.
+Print Assumptions C12_arena_find_exact.
+Print Assumptions C12_arena_find_lpm.
